@@ -30,7 +30,7 @@ extern "C" int vf_run_case(const uint8_t * data, size_t size)
    int steps = 0;
    while(!bs.done() && steps++ < 120)
    {
-      const uint8_t opb = bs.u8(); const uint8_t op = (opb >= 240) ? (uint8_t)(48+(opb-240)/8) : (uint8_t)(opb%48); const char * name = "?";      // (240..255 used to fold onto 0..15)
+      const uint8_t opb = bs.u8(); const uint8_t op = (opb >= 240) ? (uint8_t)(48+(opb-240)/2) : (uint8_t)(opb%48); const char * name = "?";      // (240..255 used to fold onto 0..15)
       const std::string mBefore = m;
       const size_t lenBefore = m.size(); const size_t posBefore = bs.pos;
       const uint32 a = bs.u8()%(uint32)(m.size()+3), b = bs.u8()%(uint32)(m.size()+3);
@@ -116,6 +116,46 @@ extern "C" int vf_run_case(const uint8_t * data, size_t size)
             if ((src == 0)&&(g_prevLonger.size() > m.size())) g_residueNeedles++;
          }
          break;
+         case 50:
+         {
+            // WithPrefix / WithSuffix / WithoutPrefix / WithoutSuffix (+IgnoreCase), String and char variants; none of them modifies the String itself
+            name = "With/WithoutPrefix/Suffix"; std::string g = (bs.u8()&1) ? Gen(bs).substr(0, 1+bs.u8()%3) : ((m.size()) ? ((bs.u8()&1) ? m.substr(0, 1+bs.u8()%3) : m.substr(m.size()-muscleMin(m.size(), (size_t)(1+bs.u8()%3)))) : std::string("a"));
+            if (g.empty()) break; const String gs(g.c_str()); const uint32 mx = (bs.u8()&1) ? MUSCLE_NO_LIMIT : (uint32)(bs.u8()%3);
+            auto lower = [](std::string x){for (size_t i=0; i<x.size(); i++) if ((x[i] >= 'A')&&(x[i] <= 'Z')) x[i] = (char)(x[i]+32); return x;};
+            auto eq = [&](const String & got, const std::string & exp, const char * what){if ((got.Length() != exp.size())||(memcmp(got.Cstr(), exp.c_str(), exp.size()+1) != 0)) FAIL("%s([%s]) on [%s] gives [%s], expected [%s]", what, vf::Esc(g).c_str(), vf::Esc(m).c_str(), vf::Esc(std::string(got.Cstr(), got.Length())).c_str(), vf::Esc(exp).c_str());};
+            {const bool has = (m.size() >= g.size())&&(m.compare(0, g.size(), g) == 0); eq(s.WithPrefix(gs), has ? m : g+m, "WithPrefix(String)");}
+            {const bool has = (m.size() >= g.size())&&(m.compare(m.size()-g.size(), g.size(), g) == 0); eq(s.WithSuffix(gs), has ? m : m+g, "WithSuffix(String)");}
+            {const bool has = (m.size())&&(m[0] == g[0]); eq(s.WithPrefix(g[0]), has ? m : std::string(1, g[0])+m, "WithPrefix(char)");}
+            {const bool has = (m.size())&&(m[m.size()-1] == g[0]); eq(s.WithSuffix(g[0]), has ? m : m+std::string(1, g[0]), "WithSuffix(char)");}
+            {std::string e = m; uint32 n = 0; while((n < mx)&&(e.size() >= g.size())&&(e.compare(0, g.size(), g) == 0)) {e.erase(0, g.size()); n++;} eq(s.WithoutPrefix(gs, mx), e, "WithoutPrefix(String)");}
+            {std::string e = m; uint32 n = 0; while((n < mx)&&(e.size() >= g.size())&&(e.compare(e.size()-g.size(), g.size(), g) == 0)) {e.erase(e.size()-g.size()); n++;} eq(s.WithoutSuffix(gs, mx), e, "WithoutSuffix(String)");}
+            {std::string e = m; uint32 n = 0; while((n < mx)&&(e.size())&&(e[0] == g[0])) {e.erase(0, 1); n++;} eq(s.WithoutPrefix(g[0], mx), e, "WithoutPrefix(char)");}
+            {std::string e = m; uint32 n = 0; while((n < mx)&&(e.size())&&(e[e.size()-1] == g[0])) {e.erase(e.size()-1); n++;} eq(s.WithoutSuffix(g[0], mx), e, "WithoutSuffix(char)");}
+            {std::string G = g; for (size_t i=0; i<G.size(); i++) if ((G[i] >= 'a')&&(G[i] <= 'z')&&(bs.u8()&1)) G[i] = (char)(G[i]-32); const std::string lg = lower(G); const String Gs(G.c_str());
+             {std::string e = m; uint32 n = 0; while((n < mx)&&(e.size() >= lg.size())&&(lower(e.substr(0, lg.size())) == lg)) {e.erase(0, lg.size()); n++;} eq(s.WithoutPrefixIgnoreCase(Gs, mx), e, "WithoutPrefixIgnoreCase(String)");}
+             {std::string e = m; uint32 n = 0; while((n < mx)&&(e.size() >= lg.size())&&(lower(e.substr(e.size()-lg.size())) == lg)) {e.erase(e.size()-lg.size()); n++;} eq(s.WithoutSuffixIgnoreCase(Gs, mx), e, "WithoutSuffixIgnoreCase(String)");}
+             {std::string e = m; uint32 n = 0; while((n < mx)&&(e.size())&&(lower(e.substr(0, 1)) == lg.substr(0, 1))) {e.erase(0, 1); n++;} eq(s.WithoutPrefixIgnoreCase(G[0], mx), e, "WithoutPrefixIgnoreCase(char)");}
+             {std::string e = m; uint32 n = 0; while((n < mx)&&(e.size())&&(lower(e.substr(e.size()-1)) == lg.substr(0, 1))) {e.erase(e.size()-1); n++;} eq(s.WithoutSuffixIgnoreCase(G[0], mx), e, "WithoutSuffixIgnoreCase(char)");}}
+         }
+         break;
+         case 51:
+         {
+            name = "WithReplacements"; const std::string x = Gen(bs).substr(0, 1+bs.u8()%3), y = Gen(bs).substr(0, bs.u8()%5); if (x.empty()) break; const uint32 mx = (bs.u8()&1) ? MUSCLE_NO_LIMIT : (uint32)(bs.u8()%4);
+            {std::string e = m; if (x != y) {uint32 cnt = 0; size_t pos = a; while((cnt < mx)&&(pos <= e.size())&&((pos = e.find(x, pos)) != std::string::npos)) {e.replace(pos, x.size(), y); pos += y.size(); cnt++;}} const String got = s.WithReplacements(String(x.c_str()), String(y.c_str()), mx, a); if ((got.Length() != e.size())||(memcmp(got.Cstr(), e.c_str(), e.size()+1) != 0)) FAIL("WithReplacements([%s],[%s],%u,%u) on [%s] gives [%s], expected [%s]", vf::Esc(x).c_str(), vf::Esc(y).c_str(), mx, a, vf::Esc(m).c_str(), vf::Esc(std::string(got.Cstr(), got.Length())).c_str(), vf::Esc(e).c_str());}
+            {const char cx2 = x[0], cy = y.size() ? y[0] : 'Z'; std::string e = m; if (cx2 != cy) {uint32 cnt = 0; for (size_t i=a; (i<e.size())&&(cnt<mx); i++) if (e[i] == cx2) {e[i] = cy; cnt++;}} const String got = s.WithReplacements(cx2, cy, mx, a); if ((got.Length() != e.size())||(memcmp(got.Cstr(), e.c_str(), e.size()+1) != 0)) FAIL("WithReplacements(char) on [%s] gives [%s], expected [%s]", vf::Esc(m).c_str(), vf::Esc(std::string(got.Cstr(), got.Length())).c_str(), vf::Esc(e).c_str());}
+         }
+         break;
+         case 52:
+         {
+            name = "CharAt/Equals/words"; if (a < m.size()) {if (s.CharAt(a) != m[a]) FAIL("CharAt(%u)", a);}
+            if (s.Equals(t) != (m == mt)) FAIL("Equals(String)"); if (s.Equals(mt.c_str()) != (m == mt)) FAIL("Equals(const char *)"); if (s.Equals('a') != (m == "a")) FAIL("Equals(char)");
+            const std::string w = Gen(bs).substr(0, bs.u8()%4); const String ws(w.c_str());
+            // documented: a separator goes between the old content and the new word "if necessary"; with the default " " that is: both non-empty and no space already at the joint
+            {std::string e = m; if (w.size()) {if ((m.size())&&(m[m.size()-1] != ' ')&&(w[0] != ' ')) e += " "; e += w;} const String got = s.WithAppendedWord(ws); if ((got.Length() != e.size())||(memcmp(got.Cstr(), e.c_str(), e.size()+1) != 0)) FAIL("WithAppendedWord([%s]) on [%s] gives [%s], expected [%s]", vf::Esc(w).c_str(), vf::Esc(m).c_str(), vf::Esc(std::string(got.Cstr(), got.Length())).c_str(), vf::Esc(e).c_str());}
+            {std::string e = m; if (w.size()) {std::string pre = w; if ((m.size())&&(m[0] != ' ')&&(w[w.size()-1] != ' ')) pre += " "; e = pre+m;} const String got = s.WithPrependedWord(ws); if ((got.Length() != e.size())||(memcmp(got.Cstr(), e.c_str(), e.size()+1) != 0)) FAIL("WithPrependedWord([%s]) on [%s] gives [%s], expected [%s]", vf::Esc(w).c_str(), vf::Esc(m).c_str(), vf::Esc(std::string(got.Cstr(), got.Length())).c_str(), vf::Esc(e).c_str());}
+         }
+         break;
+         case 53: case 54: case 55: {name = "(reserved)";} break;
          case 47: {name="t=s then mutate s (copies are independent)"; t = s; mt = m; s += 'k'; m.push_back('k');} break;
       }
       if (op == 37) {/* model for WithInsert(self): need the max arg that was consumed; simpler: recompute from the result's structural property */ const std::string got(s.Cstr(), s.Length()); if (got.size() < m.size()) FAIL("WithInsert shrank"); const size_t ia = muscleMin((size_t)a, m.size()); const size_t insLen = got.size()-m.size(); if (insLen > m.size()) FAIL("WithInsert inserted too much"); const std::string exp = m.substr(0, ia) + m.substr(0, insLen) + m.substr(ia); if (got != exp) FAIL("WithInsert(self) content"); m = exp;}
